@@ -278,18 +278,18 @@ def export_plan(chk: Check, rng: common.Rng, thorough: bool) -> list:
         for v in (rng.sample(opsets, 2) if not thorough else opsets):
             plan.append((d, dict(progs.random_cfg(rng, d), opset=v)))
     if thorough:
-        chosen = params
+        chosen = rng.shuffle(params)        # seeded order: a budget cut drops a different tail per seed
     else:
         light = [p for p in params if not str(p.get("context", "")).startswith("examples.")]
         heavy = [p for p in params if str(p.get("context", "")).startswith("examples.")]
-        chosen = rng.sample(light, 110) + rng.sample(heavy, 6)
+        chosen = rng.sample(light, 80) + rng.sample(heavy, 4)
     for tp in chosen:
         vs = [21, mx, rng.choice(opsets[1:-1])] if thorough else rng.sample(opsets, 2)
         for v in vs:
             plan.append((progs.plugin_desc(tp), progs.plugin_cfg(tp, opset=v)))
     # explored only (no claim): a few testcases at 13..20
     explore = []
-    for tp in rng.sample(chosen, min(len(chosen), 12 if not thorough else 200)):
+    for tp in rng.sample(chosen, min(len(chosen), 8 if not thorough else 200)):
         explore.append((progs.plugin_desc(tp), progs.plugin_cfg(tp, opset=rng.randint(13, 20))))
     return plan, explore
 
@@ -457,7 +457,7 @@ def run(chk: Check) -> None:
                 chk.finding(key, f"{f['oracle']} rejects {progs.describe(ex.desc)} at opset {v}: {f['msg'][:160]}",
                             {"program": ex.desc, "config": ex.cfg, "oracle": f, "checker_reasons": reasons[:5]})
             # numeric agreement with the default-opset export (sampled)
-            if not reasons and not fails and v != 23 and n_numeric < (60 if not thorough else 1500):
+            if not reasons and not fails and v != 23 and n_numeric < (40 if not thorough else 1500):
                 ref = progs.export(ex.desc, dict(ex.cfg, opset=23))
                 if ref.ok:
                     n_numeric += 1
